@@ -141,6 +141,15 @@ class Setup:
             frames.append(("data-header", wire.frame(ms.DataMessage(ms.DATA_HEADER, blk.header))))
         for t in self.pooled:
             frames.append(("data-pooled-transaction", wire.transaction(bridge.rtx_to_real(t))))
+        # copies of blocks an honest peer has announced but not delivered yet, with the HEADER intact and one bit of the body
+        # altered (they decode; the commitment in the header does not match) -- the genuine blocks arrive from the honest peer
+        # after the hostile phase and must be taken then
+        for rb in getattr(self, "future_blocks", [])[getattr(self, "delivered_early", 0):]:
+            fr = bytearray(wire.block(bridge.rblock_to_real(rb)))
+            fr[-rng.randint(1, 60)] ^= 1 << rng.randrange(8)
+            frames.append(("data-invalid-block:announced-block-with-altered-body", bytes(fr)))
+            frames.append(("data-invalid-block:announced-block-with-altered-body", bytes(fr)))
+            self.mon.c["corpus_frames_announced_block_with_altered_body"] = self.mon.c.get("corpus_frames_announced_block_with_altered_body", 0) + 1
         frames.append(("get-peers", wire.frame(ms.GetPeersMessage())))
         frames.append(("peers", wire.frame(ms.PeersMessage([ms.Peer(0, self.g.ip(rng), 2412) for _ in range(3)]))))
         # structurally invalid blocks / transactions of every by-itself class (and rule-breaking ones), unsolicited
